@@ -182,6 +182,7 @@ def run_chunk(mod, seeds, tier, opts):
     signal.signal(signal.SIGALRM, _on_alarm)
     if hasattr(mod, 'set_full_global'):
         mod.set_full_global(opts.get('full_global', False))
+    executed = []     # plans already executed in this process, in order (a violation may depend on them)
     for pos, (base, idx) in enumerate(seeds):
         seed = base + idx
         if not mod.clean_start():
@@ -220,8 +221,10 @@ def run_chunk(mod, seeds, tier, opts):
         if len(res['samples']) < 1 and out.nontrivial:
             res['samples'].append({'seed': seed, 'events': plan['events'][:12], 'pool': plan['pool']})
         if out.violation is not None:
-            res['violation'] = {'seed': seed, 'plan': plan, 'violation': out.violation}
+            res['violation'] = {'seed': seed, 'plan': plan, 'violation': out.violation,
+                                'prefix': executed[-opts.get('prefix_keep', 400):]}
             break
+        executed.append(plan)
     if res['violation'] is None and not res['harness_error'] and hasattr(mod, 'chunk_end_clean') \
             and not opts.get('full_global') and not mod.chunk_end_clean():
         # some run of this chunk changed process-wide content without the cheap fingerprint noticing:
@@ -327,31 +330,92 @@ def same_class(v, vclass):
     return v is not None and [v['property'], v['invariant'], v['op'], v['detail']] == list(vclass)
 
 
-def _fails(mod, plan, vclass):
+def _seq_child(conn, mod_name, plans):
     try:
-        if not mod.clean_start():
-            mod.force_clean()
-        out = mod.execute(plan)
-    except Exception:
+        import faulthandler
+        faulthandler.dump_traceback_later(300, exit=True)
+        from sim import registry
+        mod = registry.load(mod_name)
+        mod.clean_start()
+        v = None
+        for pl in plans:
+            v = mod.execute(pl).violation
+        conn.send(['ok', v])
+    except BaseException:  # noqa
+        try:
+            conn.send(['err', traceback.format_exc()])
+        except Exception:
+            pass
+    finally:
+        conn.close()
+        os._exit(0)
+
+
+def eval_sequence(mod_name, plans, timeout=330):
+    """Execute plans one after the other in a freshly forked child of this (pristine) process; return the violation
+    of the last one, or None.  The calling process itself never executes a plan, so it stays in import-time state."""
+    ctx = multiprocessing.get_context('fork')
+    pc, cc = ctx.Pipe(duplex=False)
+    p = ctx.Process(target=_seq_child, args=(cc, mod_name, plans))
+    p.start()
+    cc.close()
+    try:
+        if not pc.poll(timeout):
+            p.kill()
+            return None
+        tag, v = pc.recv()
+    except EOFError:
         return None
-    if same_class(out.violation, vclass):
-        return out.violation
-    return None
+    finally:
+        p.join(5)
+        pc.close()
+    return v if tag == 'ok' else None
 
 
-def minimise(mod, plan, vclass, budget_s=60):
+def minimise(mod_name, mod, plan, vclass, prefix=None, budget_s=60):
+    """Delta debugging. Returns (plan, violation, prefix): `prefix` is the (reduced) list of plans that have to run
+    before `plan` in the same process for the violation to show - empty for everything that does not depend on
+    cross-run process state."""
     t0 = time.time()
     best = json.loads(json.dumps(plan))
-    v = _fails(mod, best, vclass)
-    if v is None:
-        return plan, None
+    pre = []
+
+    def fails(cand, cand_pre):
+        v = eval_sequence(mod_name, list(cand_pre) + [cand])
+        return v if same_class(v, vclass) else None
+
+    v = fails(best, pre)
+    if v is None and prefix:
+        pre = list(prefix)
+        v = fails(best, pre)
+        if v is None:
+            return plan, None, []
+        # ddmin over the preceding runs
+        n = 2
+        while len(pre) >= 1 and time.time() - t0 < budget_s:
+            size = max(1, len(pre) // n)
+            reduced = False
+            for i in range(0, len(pre), size):
+                cand = pre[:i] + pre[i + size:]
+                r = fails(best, cand)
+                if r is not None:
+                    pre, v = cand, r
+                    n = max(n - 1, 2)
+                    reduced = True
+                    break
+            if not reduced:
+                if size == 1:
+                    break
+                n = min(len(pre), n * 2)
+    elif v is None:
+        return plan, None, []
     last_v = v
 
     def try_plan(cand):
         nonlocal best, last_v
         if time.time() - t0 > budget_s:
             return False
-        r = _fails(mod, cand, vclass)
+        r = fails(cand, pre)
         if r is not None:
             best = cand
             last_v = r
@@ -361,8 +425,7 @@ def minimise(mod, plan, vclass, budget_s=60):
     # 1. truncate after the violating event
     ev_idx = v.get('event')
     if isinstance(ev_idx, int) and ev_idx + 1 < len(best['events']):
-        cand = dict(best, events=best['events'][:ev_idx + 1])
-        try_plan(cand)
+        try_plan(dict(best, events=best['events'][:ev_idx + 1]))
     # 2. ddmin over events
     n = 2
     while len(best['events']) >= 2 and time.time() - t0 < budget_s:
@@ -387,12 +450,23 @@ def minimise(mod, plan, vclass, budget_s=60):
             if try_plan(cand):
                 changed = True
                 break
-    # 4. drop unused pool entries
+    # 4. the preceding runs: keep only their events up to the last call (cheap second pass over single events)
+    for k in range(len(pre)):
+        if time.time() - t0 > budget_s:
+            break
+        evs = pre[k]['events']
+        for cut in (1, 2):
+            if len(evs) > cut:
+                cand_pre = pre[:k] + [dict(pre[k], events=evs[:cut])] + pre[k + 1:]
+                r = fails(best, cand_pre)
+                if r is not None:
+                    pre, last_v = cand_pre, r
+                    break
+    # 5. drop unused pool entries
     used = json.dumps(best['events'])
     pool = {k: v for k, v in best['pool'].items() if f'"{k}"' in used or _pool_ref(best['pool'], k)}
-    cand = dict(best, pool=pool)
-    try_plan(cand)
-    return best, last_v
+    try_plan(dict(best, pool=pool))
+    return best, last_v, pre
 
 
 def _pool_ref(pool, k):
